@@ -414,6 +414,8 @@ def run_case(ctx, case):
         labels.add("rejected_op")
     if exp.error_page:
         labels.add("error_page")
+    if exp.outcome == "normal" and not exp.body and not exp.error_page and not exp.bodyless_status:
+        labels.add("empty_body_response")  # boundary: body-capable status with a zero-length body
     if exp.flushed_early:
         labels.add("flush_before_finish")
         if exp.status is not None and not exp.bodyless_status and exp.status not in (200, 404, 500):
